@@ -45,14 +45,20 @@ func NewParams(schema *Schema, su SimpleURL, resType string) (*Params, error) {
 		incRel := Rel{ToType: resType}
 
 		for _, word := range words {
-			if typ := schema.GetType(incRel.ToType); typ.Name != "" {
-				var ok bool
-				if incRel, ok = typ.Rels[word]; ok {
+			typ := schema.GetType(incRel.ToType)
+
+			var ok bool
+			if incRel, ok = typ.Rels[word]; ok {
+				// The type might not exist if the schema has a
+				// relationship that points to an unknown type.
+				if schema.HasType(incRel.ToType) {
 					params.Fields[incRel.ToType] = []string{}
-				} else {
-					incs = append(incs[:i], incs[i+1:]...)
-					break
 				}
+			} else {
+				// Unknown relationship (or unknown type, in which
+				// case typ is empty).
+				incs = append(incs[:i], incs[i+1:]...)
+				break
 			}
 		}
 	}
